@@ -2267,12 +2267,15 @@ class FilePool:
         try:
             yield f
         finally:
-            self._out.remove(f)
-            self._files.append(f)
-            if not self._out:
-                with self._cond:
-                    if self.writers and not self._out:
-                        self._cond.notify_all()
+            # Under the condition, like the check-out: a writer must not
+            # see the file as returned before it is back in the pool (it
+            # would empty the pool first and the file, open on the file
+            # the writer replaces, would be pooled afterwards).
+            with self._cond:
+                self._out.remove(f)
+                self._files.append(f)
+                if self.writers and not self._out:
+                    self._cond.notify_all()
 
     def empty(self):
         while self._files:
